@@ -56,7 +56,9 @@ def cgen(wd, name, c, simulate=None, depth=None, timeout=300, limit=None):
 
 
 def cconform(v, wd, name, c, schedules, invs=CINVS[:6], max_failures=3, page_size=100000,
-             dev=frozenset()):
+             dev=frozenset(), obs_invs=()):
+    """obs_invs: invariants that only the property-level specification can state (it carries
+    the history they need, e.g. SnapshotRetained); an accepted trace is checked for them too."""
     if not schedules:
         v.tool_errors.append(f"{name}: TLC produced no schedules")
         return
@@ -75,7 +77,7 @@ def cconform(v, wd, name, c, schedules, invs=CINVS[:6], max_failures=3, page_siz
     cur = trace
     failures = 0
     mode = "impl"          # "impl": TraceCloud; "obs": ObsCloud (after a specification drift)
-    oinvs = [i for i in invs if i != "TypeOK"]
+    oinvs = [i for i in invs if i != "TypeOK"] + [i for i in obs_invs if i not in invs]
     ocfg = write_cfg(os.path.join(wd, name + ".obs.cfg"), {"Clients": c["Clients"], "MaxVer": 60},
                      spec="OSpec", invariants=oinvs, postcondition="Accepted")
     while True:
@@ -99,6 +101,29 @@ def cconform(v, wd, name, c, schedules, invs=CINVS[:6], max_failures=3, page_siz
             if mode == "obs":
                 v.extra["validated_at_property_level_only"] = \
                     v.extra.get("validated_at_property_level_only", 0) + len(split_behaviours(cur))
+            if mode == "impl" and obs_invs and not dev:
+                ocfg3 = write_cfg(os.path.join(wd, name + ".obsinv.cfg"),
+                                  {"Clients": c["Clients"], "MaxVer": 60}, spec="OSpec",
+                                  invariants=list(obs_invs), postcondition="Accepted")
+                ro = tlc_trace(wd, name + ".obsinv", "ObsCloud.tla", ocfg3, cur)
+                if ro["violated"]:
+                    line = ro.get("violated_at_line", 1)
+                    k, lines, off = behaviour_at(cur, line)
+                    bid = json.loads(lines[0]).get("id") if lines else None
+                    what = (f"invariant {ro['violated']} violated while following the recorded "
+                            f"execution")
+                    p = write_replay(v.pid, f"{name}-b{bid}-{ro['violated']}",
+                                     {"kind": "trace-rejection", "check": name, "behaviour": bid,
+                                      "driver": "cloud-replay", "level": "property-level",
+                                      "stimulus": stimuli[bid] if bid is not None and bid < len(stimuli) else None,
+                                      "invariant": ro["violated"], "what": what,
+                                      "trace": [json.loads(x) for x in lines],
+                                      "trace_module": "ObsCloud.tla", "invariants": list(obs_invs),
+                                      "constants": {"Clients": sorted(c["Clients"]), "MaxVer": 60}})
+                    v.violations.append((what, p))
+                elif not ro["accepted"]:
+                    v.tool_errors.append(f"{name}: ObsCloud did not accept a trace that TraceCloud "
+                                         f"accepts (see {ro['out']})")
             break
         if r["timed_out"] or (r["rejected_at"] is None and not r["violated"]):
             v.tool_errors.append(f"{name}: trace validation did not finish: {r.get('error')} "
